@@ -157,10 +157,8 @@ def run_link(case: dict) -> LinkResult:
         res.fired_history = 1
     else:
         # hermetic: private deep copies of the (never called) per-process prototypes
-        import copy as _copy
-
-        dec = _copy.deepcopy(C.build_decoder(case["code"], case["decoder"], case.get("dec_opts")))
-        enc = dec.encoder if hasattr(dec, "encoder") else _copy.deepcopy(C.build_encoder(case["code"]))
+        dec = C.private_decoder(case["code"], case["decoder"], case.get("dec_opts"))
+        enc = dec.encoder if hasattr(dec, "encoder") else C.private_encoder(case["code"])
     mod, demod = C.build_modem(case["mod"], case.get("via_registry", False))
     mod.eval()
     demod.eval()
